@@ -7,6 +7,8 @@ import (
 	"io/fs"
 	"os"
 	"path/filepath"
+	"strconv"
+	"sync"
 
 	"crawshaw.io/sqlite"
 	"crawshaw.io/sqlite/sqlitex"
@@ -112,4 +114,57 @@ func simWantReal(draw int) bool {
 		return true
 	}
 	return os.Getenv("VERIF_TIER") == "thorough" && draw == 0
+}
+
+
+// ---- large pre-built base (thorough tier): a log of 65 530 leaves, so that generated
+// histories cross the level-1 tile boundary at 65 536 and create level-2 tiles ----
+
+var simBig struct {
+	once sync.Once
+	base *simSys
+	next int
+}
+
+const simBigSize = 65530
+
+func simBigBase(t simFataler) (*simSys, int) {
+	simBig.once.Do(func() {
+		dir, err := os.MkdirTemp("", "vfbig")
+		if err != nil {
+			panic("VERIF-INCONCLUSIVE: " + err.Error())
+		}
+		s := newSimSys(t, dir)
+		if _, err := s.create(nil); err != nil {
+			panic("VERIF-INCONCLUSIVE: big base create: " + err.Error())
+		}
+		in, err := s.load(nil)
+		if err != nil {
+			panic("VERIF-INCONCLUSIVE: big base load: " + err.Error())
+		}
+		id := 10_000_000
+		for len(s.model) < simBigSize {
+			n := min(4096, simBigSize-len(s.model))
+			for k := 0; k < n; k++ {
+				s.submit(context.Background(), in, simMakeEntry(id, (id%2)|((id/3%2)<<2)), false)
+				id++
+			}
+			s.w.clock += 1000
+			if res := s.round(in, nil); res.Err != nil || res.Failed > 0 {
+				panic("VERIF-INCONCLUSIVE: big base round failed")
+			}
+		}
+		in.close()
+		s.acks = nil // the base's acknowledgements are not re-checked by every clone
+		simBig.base, simBig.next = s, id
+	})
+	return simBig.base, simBig.next
+}
+
+
+func simEnvInt(name string, def int) int {
+	if v, err := strconv.Atoi(os.Getenv(name)); err == nil {
+		return v
+	}
+	return def
 }
